@@ -471,6 +471,9 @@ impl<'a> Tr<'a> {
                 if self.s_alias_of(&m.receiver) == Some(Alias::Encoder) && name == "write" {
                     return Some("(Except ZErr UInt64)".into());
                 }
+                if self.s_alias_of(&m.receiver) == Some(Alias::Encoder) && name == "flush" && m.args.is_empty() {
+                    return Some("(Except ZErr Unit)".into());
+                }
                 if self.s_is_inner(&m.receiver) {
                     match name.as_str() {
                         "ref_mut" => return Some("(Option Unit)".into()),
@@ -761,6 +764,12 @@ impl<'a> Tr<'a> {
                 self.emit(format!("let ({t1}, {t2}) ← Rs.S.call (Rs.S.enc_write ext self.inner {a})"));
                 self.emit(format!("self := {{ self with inner := {t2} }}"));
                 return Ok(Some(t1));
+            }
+            // w.flush() through the current encoder: the `io::Result<()>` as a value
+            if name == "flush" && m.args.is_empty() {
+                let t = self.fresh();
+                self.emit(format!("let {t} ← Rs.S.call (Rs.S.enc_flush ext self.inner)"));
+                return Ok(Some(t));
             }
             return Err(format!("encoder.{name}()"));
         }
